@@ -249,7 +249,11 @@ def foldCase : Re → Re
 
 /-- `lib.CompileMillerRegex`: strip enclosing `"…"` or `/…/`; a trailing `i` after the closing
 delimiter makes it case-insensitive. -/
+def hasInfix (s pat : Bytes) : Bool := (List.range (s.length + 1)).any fun i => (s.drop i).take pat.length == pat
+
 def compileMiller (s : Bytes) : Option (Re × Nat × Bytes) :=
+  -- POSIX bracket classes ([[:alpha:]] …) are outside the modelled subset
+  if hasInfix s [91, 58] then none else
   let n := s.length
   let inner (k : Nat) : Bytes := (s.drop 1).take (n - 1 - k)
   let plain (p : Bytes) : Option (Re × Nat × Bytes) := (parse p).map fun (r, g) => (r, g, p)
